@@ -105,6 +105,9 @@ func (f *GraphqlQuery) Call(s *slip.Scope, args slip.List, depth int) slip.Objec
 	targs := slip.List{slip.String(template)}
 	ns := s.NewScope()
 	client := &http.Client{}
+	if len(args)%2 != 0 {
+		slip.ErrorPanic(s, depth, "extra arguments that are not keyword and value pairs")
+	}
 	for i := 0; i < len(args); i += 2 {
 		if key, ok := args[i].(slip.Symbol); ok && 1 < len(key) && key[0] == ':' {
 			ns.Let(key[1:], args[i+1])
